@@ -221,6 +221,9 @@ class Element(ElementOfUnknownGroup):
     def add(self, other):
         if not isinstance(other, ElementOfUnknownGroup):
             raise TypeError("elements can only be added to other elements")
+        if other is Zero:
+            # adding the identity leaves us a subgroup member
+            return self
         sum_element = ElementOfUnknownGroup.add(self, other)
         if sum_element is Zero:
             return sum_element
